@@ -133,6 +133,7 @@ class ConstraintKMeans(KMeans):
                 self.cluster_centers_ = centers
                 self.inertia_ = float(X.shape[0])
                 self.n_iter_ = 0
+                self.n_features_in_ = X.shape[1]
         finally:
             self.max_iter = max_iter
 
